@@ -25,7 +25,10 @@
        exhibits it on the model.  No type of the palette has this shape.
      - alpha_b: an assignment carries a value only for types with ci_hasval (the driver cannot write the value of
        the empty type); component ids are below 128.
-     - mrun = Ok: an Err of the model is undefined behaviour of the code (e.g. a component id without description). *)
+     - mrun = Ok: an Err of the model is undefined behaviour of the code (e.g. a component id without description).
+       This hypothesis is DISCHARGED at the end of this file (C02_model_run_total, C02_unlocked_refines_total): it follows
+       from the other hypotheses plus reg_b (every component id the script names has a description), and reg_b is
+       needed (C02_model_run_total_refuted_without_registration). *)
 Require Import Coq.Lists.List Coq.NArith.NArith Coq.ZArith.ZArith Coq.Arith.Arith Coq.Bool.Bool.
 From Mustache Require Import Res Manager MgrSpec Refine Palette.
 From Mustache.proofs Require Import ManagerBasics ManagerMoves ManagerProj ManagerInv ManagerMain ManagerWorlds.
@@ -173,3 +176,72 @@ Example C02_insert_skips_default_of_after_assign_types :
   refines_on false 1 [odd_info] [XoCreate 0 0%N [] false; XoAssign 0 0 0 None] = true /\
   x_viol (xrun 1 [odd_info] [XoCreate 0 1%N [] false]) = 0.
 Proof. vm_compute. repeat split. Qed.
+
+(* ---- totality: inside the contract the model run never ends in Err ---------------------------------------------- *)
+(* proofs/ManagerTotal.v.  The hypothesis `mrun = Ok` of the theorems above is discharged: for every script over alpha_b
+   whose specification run stays inside the documented contract (x_viol = 0) and that creates fewer than 16 777 000
+   entities, the model run is Ok -- PROVIDED every component id the script names (in a creation mask or an assignment)
+   has a description: reg_b, a decidable condition on the script alone.  Without it totality is FALSE
+   (C02_model_run_total_refuted_without_registration): the specification gives an undescribed component id the
+   indeterminate value, the model returns Err OobIndex (info_of), which stands for
+   ComponentFactory::componentInfo(id) = components_info[id.toInt()], an unchecked std::vector index inside a noexcept
+   function (component_factory.cpp:52-56), reached from the ArchetypeOperationHelper constructor
+   (archetype_operation_helper.cpp:35) when getArchetype builds the archetype of the new mask: undefined behaviour.
+   Every other Err of the model on this alphabet is excluded by the invariant MInv, by the contract, or by the shape
+   invariant TI of the version storage (VersionStorage::emplace / setVersion index chunk_versions_ unchecked too, but
+   the vector always covers the version chunks of all members; the version-chunk size is never 0). *)
+From Mustache.proofs Require Import ManagerTotal.
+
+Theorem C02_model_run_total : forall typed n cis ops,
+  cis_ok cis -> forallb (alpha_b cis) ops = true -> forallb (reg_b cis) ops = true ->
+  x_viol (xrun n cis ops) = 0 -> (N.of_nat (creates ops) < 16777000)%N ->
+  exists s hs, mrun typed n cis ops = Ok (s, hs) /\ length hs = creates ops.
+Proof. exact model_run_total. Qed.
+Print Assumptions C02_model_run_total.
+
+(* the conclusion of C02_unlocked_refines_on without the hypothesis on the model run *)
+Theorem C02_unlocked_refines_total : forall typed n cis ops,
+  cis_ok cis -> forallb (alpha_b cis) ops = true -> forallb (reg_b cis) ops = true ->
+  x_viol (xrun n cis ops) = 0 -> (N.of_nat (creates ops) < 16777000)%N ->
+  refines_on typed n cis ops = true.
+Proof. exact unlocked_refines_total. Qed.
+Print Assumptions C02_unlocked_refines_total.
+
+(* the conclusions of C02_unlocked_refinement and C02_unlocked_observations for the run that exists *)
+Theorem C02_unlocked_refinement_total : forall typed n cis ops,
+  cis_ok cis -> forallb (alpha_b cis) ops = true -> forallb (reg_b cis) ops = true ->
+  x_viol (xrun n cis ops) = 0 -> (N.of_nat (creates ops) < 16777000)%N ->
+  exists s hs, mrun typed n cis ops = Ok (s, hs) /\ length hs = x_count (xrun n cis ops) /\
+  (forall k,
+    match find_ent (xrun n cis ops) k with
+    | Some e => exists e', abs_ent s k (nth k hs null_handle) = Some e' /\ ent_match e e' = true
+    | None => abs_ent s k (nth k hs null_handle) = None
+    end) /\
+  (forall k c, c < MASK_BITS ->
+    step s (OHas (nth k hs null_handle) c) = Ok (s, RBool (spec_has (xrun n cis ops) k c)) /\
+    exists v, step s (OGetConst (nth k hs null_handle) c) = Ok (s, RCell (spec_has (xrun n cis ops) k c) v) /\
+              forall e w, find_ent (xrun n cis ops) k = Some e -> In (c, w) (e_comps e) -> cell_le w v = true).
+Proof. exact unlocked_refinement_total. Qed.
+Print Assumptions C02_unlocked_refinement_total.
+
+(* the hypotheses are satisfiable: the script of C02_nonvacuous (ids recycled, four archetypes, swap-removes on
+   destroyNow and on assign, dead and never-issued handles) names described ids only and creates four entities *)
+Example C02_total_nonvacuous :
+  cis_ok ex_cis /\ forallb (alpha_b ex_cis) ex_script = true /\ forallb (reg_b ex_cis) ex_script = true /\
+  x_viol (xrun 1 ex_cis ex_script) = 0 /\ (N.of_nat (creates ex_script) < 16777000)%N /\ creates ex_script = 4.
+Proof. split; [exact ex_cis_ok|]. repeat split; vm_compute; reflexivity. Qed.
+
+(* without reg_b totality fails, for a creation mask as well as for an assignment: component id 2 has no
+   description in a registry of two types; the specification run stays inside the contract *)
+Theorem C02_model_run_total_refuted_without_registration :
+  let cis := [pal_info 0 0; pal_info 1 0] in
+  cis_ok cis /\
+  (forall ops, In ops [[XoCreate 0 4%N [] false]; [XoCreate 0 1%N [] false; XoAssign 0 0 2 None]] ->
+     forallb (alpha_b cis) ops = true /\ x_viol (xrun 1 cis ops) = 0 /\ (N.of_nat (creates ops) < 16777000)%N /\
+     forallb (reg_b cis) ops = false /\
+     forall typed, mrun typed 1 cis ops = Err OobIndex).
+Proof.
+  cbv zeta. split; [unfold cis_ok; repeat constructor; simpl; intros; congruence|].
+  intros ops [<-|[<-|[]]]; (repeat split; try (vm_compute; reflexivity)); intros typed; destruct typed; vm_compute; reflexivity.
+Qed.
+Print Assumptions C02_model_run_total_refuted_without_registration.
